@@ -362,7 +362,15 @@ def _closures(ctx):
         if seed_arg is not None:
             d, fp = n.item(seed_arg)
             idx_ok = d is lp and not fp
-        rep.check('build' in chain and 'seed' in chain and chain[-1] == 'clone' and idx_ok, 'R6',
+        structural = 'build' in chain and 'seed' in chain and chain[-1] == 'clone' and idx_ok
+        if not structural:
+            # by value: at the stage call, on every path, the optimiser is build(builder) with builder.seed = Some(replica index)
+            by_value, how = _seed_by_value(n, lp, sbi)
+            if by_value:
+                structural = True
+                chain = chain or ['(by value)']
+                rep.sample('stage #%d: builder.seed = Some(replica index) by value (%s)' % (ci, how))
+        rep.check(structural, 'R6',
                   'seeded-with-replica-index:#%d' % ci, where(b, sbi),
                   'optimiser.clone()%s' % ''.join('.%s(..)' % c for c in reversed(chain[:-1])),
                   'the optimiser of this stage is not built from a builder seeded with the replica index (chain %s)'
@@ -385,6 +393,30 @@ def _closures(ctx):
                 eff[0][1][2] and eff[0][1][2][0] == 'Some' and sfield(eff[0][1], '0') == SYM('seed') and outs[0].ret == SYM('self')
         rep.check(ok, 'R6', 'seed-setter-stores-its-argument', where(sb), 'self.seed = Some(seed); returns self',
                   'BuildOptimiser::seed does not store exactly Some(argument) and return the same builder')
+
+
+def _seed_by_value(n, lp, sbi):
+    """One iteration of the replica loop is executed up to the stage call at block sbi (the builder's setters are executed,
+    build() is opaque): on every path the optimiser argument is build(b) with b.seed = Some(item of the replica loop)."""
+    try:
+        sx, outs = n.iteration(lp, {sbi}, opaque=('optimise_state', 'BuildOptimiser::build'))
+    except Exception as ex:      # noqa: BLE001
+        return False, 'not evaluated: %s' % str(ex)[:60]
+    if sx.aborted or not outs:
+        return False, 'not loop-free'
+    hits = [o for o in outs if isinstance(o.ret, tuple) and o.ret[0] == 'stopped' and o.ret[1] == sbi]
+    if not hits:
+        return False, 'stage not reached'
+    want = SYM('item%d' % lp['header'])
+    for o in hits:
+        v = n.arg_values(sx, o, sbi)[0]
+        if not (isinstance(v, tuple) and v[0] == 'app' and v[1].endswith('BuildOptimiser::build') and len(v[2]) == 1):
+            return False, 'optimiser is not the result of build()'
+        bv = v[2][0]
+        sd = sfield(bv, 'seed') if isinstance(bv, tuple) and bv[0] == 'struct' else None
+        if not (isinstance(sd, tuple) and sd[0] == 'struct' and sd[2] and sd[2][0] == 'Some' and sfield(sd, '0') == want):
+            return False, 'builder.seed is %s' % (repr(sd)[:60],)
+    return True, '%d path(s)' % len(hits)
 
 
 def thorough(ctx):
